@@ -55,6 +55,27 @@ class Gen:
                 lines.append("commodity %s" % c)
                 lines.append("    format %s %s" % (fmt(Fraction(1000), p) if r.random() < 0.5 else "1,000" + ("." + "0" * p if p else ""), c))
                 lines.append("")
+        # aliases: some accounts get an alias, declared at the top, or only after the canonical name has been used, or
+        # declared twice (the second declaration adds the alias); postings may then be written with the alias
+        alias = {}
+        declared = set()
+        late = {}
+        if r.random() < 0.3:
+            for a in r.sample(accts, r.randint(1, min(3, len(accts)))):
+                alias[a] = "al" + a.replace(":", "").lower()
+                mode = r.choice(["top", "top", "late", "twice"])
+                if mode == "top":
+                    lines += ["account %s" % a, "    alias %s" % alias[a], ""]
+                    declared.add(a)
+                elif mode == "twice":
+                    lines += ["account %s" % a, "    note first declaration", ""]
+                    late[a] = r.randint(0, 2)
+                else:
+                    late[a] = r.randint(1, 3)
+            meta["flavors"].append("aliases")
+        crlf = r.random() < 0.08
+        if crlf:
+            meta["flavors"].append("crlf")
         # tracked balances for writing assertions (None = unknown)
         bal = {a: {} for a in accts}
         known = {a: True for a in accts}
@@ -62,9 +83,10 @@ class Gen:
         day = 1
         OKF = ["plain", "plain", "omitted", "omitted", "cost", "lot", "pair", "assign", "assert", "expr", "multi-omitted",
                "assert-cost", "cancel-assert",
-               "assign-zero", "total-cost", "neg-total", "assign-zero-cur", "neg-rate"]
+               "assign-zero", "total-cost", "neg-total", "assign-zero-cur", "neg-rate", "bare-zero-assert", "lot-cost-omitted",
+               "big-pair"]
         ERRF = ["assert-false", "unbalanced", "zero-entry", "same-sign", "two-omitted", "zero-rate", "same-commodity-rate",
-                "bare-number", "half-unit", "three-commodity", "lot-and-cost"]
+                "bare-number", "half-unit", "three-commodity", "lot-and-cost", "bare-zero-assert-false", "big-same-sign"]
         bad_at = r.randint(0, ntxn - 1) if r.random() < 0.45 else -1
         # the file need not be chronological (entries are kept in file order; date ranges select by date)
         shuffled_dates = r.random() < 0.25
@@ -91,12 +113,26 @@ class Gen:
             else:
                 fl = r.choice(OKF)
             meta["flavors"].append(fl)
+            for a in [a for a, at in late.items() if at == k]:
+                lines += ["account %s" % a, "    alias %s" % alias[a], ""]
+                declared.add(a)
+                del late[a]
             posts = self.txn(fl, coms, accts, prec, bal, known)
+            # an effective date in the header changes nothing for book-keeping or for date ranges (they use the date)
+            if r.random() < 0.15:
+                date = "%s=2024/%02d/%02d" % (date, r.randint(1, 12), r.randint(1, 28))
+                meta["flavors"].append("effective-date")
             lines.append("%s %s" % (date, fl))
             for p in posts:
+                acct, sep, rest = p.partition("  ")
+                if acct in declared and r.random() < 0.5:
+                    p = alias[acct] + sep + rest
                 lines.append("    " + p)
             lines.append("")
-        return "\n".join(lines) + "\n", meta
+        text = "\n".join(lines) + "\n"
+        if crlf:
+            text = text.replace("\n", "\r\n")
+        return text, meta
 
     # -- helpers -------------------------------------------------------------------------------
     def track(self, bal, known, acct, c, v):
@@ -209,6 +245,36 @@ class Gen:
             if r.random() < 0.3:
                 posts.reverse()
             return posts
+        if fl in ("bare-zero-assert", "bare-zero-assert-false"):
+            # a pure check posting: the commodity-less `0` changes nothing, its assertion must still be evaluated
+            self.track(bal, known, a1, c, v)
+            self.track(bal, known, a2, c, -v)
+            s1 = self.assertion(bal, known, a1, c, fl == "bare-zero-assert")
+            if not s1:
+                s1 = " = %s %s" % (fmt(v if fl == "bare-zero-assert" else v + 1), c)
+            return [P(a1, "%s %s" % (fmt(v), c)), P(a2, "%s %s" % (fmt(-v), c)), P(a1, "0%s" % s1)]
+        if fl == "lot-cost-omitted":
+            # lot price and a DIFFERENT cost on one posting (either sign of the quantity): the lot price is the balancing
+            # value, whether the counter-amount is written or omitted
+            others = [x for x in coms if x != c]
+            if not others:
+                return self.txn("plain", coms, accts, prec, bal, known)
+            c2 = r.choice(others)
+            rate = Fraction(r.choice(RATES))
+            known[a1] = known[a2] = False
+            first = P(a1, "%s %s {%s %s} @ %s %s" % (fmt(v), c, fmt(rate), c2, fmt(rate * r.choice([2, Fraction(1, 2), 3])), c2))
+            return [first, r.choice([a2, P(a2, "%s %s" % (fmt(-v * rate), c2))])]
+        if fl in ("big-pair", "big-same-sign"):
+            # large but individually representable totals in two commodities (products of them are not representable:
+            # nothing in the property needs such a product)
+            others = [x for x in coms if x != c]
+            if not others:
+                return self.txn("plain", coms, accts, prec, bal, known)
+            c2 = r.choice(others)
+            x = Fraction(r.choice([10 ** 15, 3 * 10 ** 14, 25 * 10 ** 13]))
+            y = Fraction(r.choice([10 ** 14, 5 * 10 ** 14, 2 * 10 ** 15]))
+            known[a1] = known[a2] = False
+            return [P(a1, "%s %s" % (fmt(x), c)), P(a2, "%s %s" % (fmt(-y if fl == "big-pair" else y), c2))]
         if fl == "assign-zero-cur":
             # `acct = 0 CUR` (zero WITH a commodity) on an account that holds CUR, then more activity on the account:
             # the assigned commodity must be gone from the running balance (not left as a zero entry / stale total)
